@@ -7,7 +7,8 @@ Record c19case := {
   c9_text : str;
   c9_parsed : result (list (list word));
   c9_written : result str;
-  c9_reparsed : result (list (list word))
+  c9_reparsed : result (list (list word));
+  c9_tokens : list word                          (* kind 1: the tokens themselves (surface, feature) as the Token API reports them *)
 }.
 
 Definition word_eqb (a b : word) : bool := str_eqb (fst a) (fst b) && str_eqb (snd a) (snd b).
@@ -67,6 +68,11 @@ Definition c19_oracle (c : c19case) : bool :=
             | [] => match exs with [] => true | _ => false end
             | _ => exs_eqb exs [toks]
             end
+            (* ... and they are the tokens the tokenizer reported, surface and feature *)
+            && match c9_tokens c with
+               | [] => match exs with [] => true | _ => false end
+               | tk => exs_eqb exs [tk]
+               end
           else true)
   end.
 
